@@ -214,6 +214,9 @@ def _case_random_tree(run, rng, quick, case_seed, icase):
                 tq = [int(x) for x in L.piece_qn(p)]
                 break
     scale_mode = "unit" if rng.random() < 0.6 else "wide"
+    if rng.random() < 0.15:
+        scale_mode = "tiny"         # every coefficient far below any absolute cut-off (1e-19 .. 1e-12)
+        run.count("factor-scale:tiny")
     # terms may also put "I" on the dummies of tree a
     support = list(range(len(descs_a)))
     terms = L.random_terms(rng, descs_all, int(rng.integers(1, 9 if quick else 16)), respect_qn=respect, total_qn=tq,
